@@ -23,6 +23,7 @@ import (
 	"strconv"
 	"strings"
 	"sync"
+	"sync/atomic"
 	"time"
 
 	"github.com/gogpu/naga/zverif/proto"
@@ -515,6 +516,11 @@ func (d *driver) check(n int) int {
 		twinEvery = 4
 	}
 	workers := envInt("VERIF_WORKERS", runtime.NumCPU())
+	var done atomic.Int64
+	progressEvery := n / 20
+	if progressEvery < 1000 {
+		progressEvery = 1000
+	}
 	recs := make([]record, n)
 	var wg sync.WaitGroup
 	next := make(chan int, n)
@@ -566,6 +572,9 @@ func (d *driver) check(n int) int {
 					rec.prelude = nil
 				}
 				recs[i] = rec
+				if c := done.Add(1); c%int64(progressEvery) == 0 {
+					fmt.Fprintf(os.Stderr, "[progress] %d/%d scenarios, %d executions, %.0fs\n", c, n, d.x.runs.Load(), time.Since(start).Seconds())
+				}
 			}
 		}()
 	}
@@ -590,6 +599,17 @@ func (d *driver) check(n int) int {
 		fs := d.relevant(rec.findings)
 		if rec.twinBad != "" {
 			fs = append(fs, finding{Props: []string{d.prop}, Class: "O-TWIN", Kind: "process", Task: -1, Op: -1, Detail: rec.twinBad})
+		}
+		knownHere := false
+		for fi := range fs {
+			if fs[fi].ConsequenceOf == "" && d.known.match(d.prop, &fs[fi]) != nil {
+				knownHere = true
+			}
+		}
+		if knownHere {
+			ev.scenariosWithKnown++
+		} else {
+			ev.scenariosFullyLive++
 		}
 		for fi := range fs {
 			f := &fs[fi]
